@@ -281,6 +281,7 @@ fn indicators_block(thorough: bool) -> (VioSink, Tally) {
 	let sink = VioSink::new(&format!("Indicators/params[{}]", build_name()));
 	let t = Tally::new();
 	let ks = alpha::k_candles();
+	let doc_min = documented_minimums();
 	let cfgs = defaults();
 	let maxp = PeriodType::MAX as u64;
 	let edge: Vec<u64> = vec![0, 1, 2, 3, 127, 128, maxp - 2, maxp - 1, maxp];
@@ -344,11 +345,26 @@ fn indicators_block(thorough: bool) -> (VioSink, Tally) {
 				}
 			};
 			let case = format!("{name} {{{what}}}");
+			// "Err whenever a length is given that the constructor documents as too small": every integer parameter
+			// / MA period of this configuration against the literal lower bound of its doc comment
+			let below: Option<String> = json_map(&c.to_json().unwrap_or_default()).iter().find_map(|(k, v)| {
+				let val = v.as_u64().or_else(|| v.as_object().and_then(|o| o.values().next().and_then(|x| x.as_u64())))?;
+				let min = *doc_min.get(&(name.to_string(), k.clone()))?;
+				if val < min {
+					Some(format!("{k} = {val}, documented minimum {min}"))
+				} else {
+					None
+				}
+			});
 			match catch(|| c.init(&ks[1])) {
 				Err(p) => sink.push(&format!("{name}/init/panic:{}{}", psig(&p), max_class(&c.to_json().unwrap_or_default())), case, format!("validate() = {valid}; init panicked at {}: {}", p.at(), p.msg)),
 				Ok(Err(_)) => Tally::add(&t.err, 1),
 				Ok(Ok(inst)) => {
 					Tally::add(&t.ok, 1);
+					if let Some(b) = &below {
+						let field = b.split(' ').next().unwrap_or("");
+						sink.push(&format!("{name}/init/accepted-below-documented-minimum/{field}"), case.clone(), format!("init returned Ok although {b}"));
+					}
 					if !valid {
 						sink.push(&format!("{name}/init/accepted-although-validate-false"), case.clone(), "validate() is false but init returned Ok".into());
 					}
@@ -454,6 +470,23 @@ fn strings_block() -> (VioSink, u64) {
 		}
 		if let Err(p) = catch(|| Source::from_str(s)) {
 			sink.push(&format!("Source::from_str/panic:{}", psig(&p)), format!("{s:?}"), p.msg);
+		}
+	}
+	// MovingAverageConstructor contract: `is_similar_to` ("the same moving average type") holds for exactly the
+	// pairs of equal kind, at any pair of lengths; ma_period returns the length given
+	{
+		use yata::core::MovingAverageConstructor;
+		for ka in MA_KINDS {
+			for kb in MA_KINDS {
+				for (la, lb) in [(3u8, 3u8), (3, 7), (254, 2)] {
+					n += 1;
+					let (Ok(a), Ok(b)) = (yata::helpers::MA::from_str(&format!("{ka}-{la}")), yata::helpers::MA::from_str(&format!("{kb}-{lb}"))) else { continue };
+					let same = a.is_similar_to(&b);
+					if same != (ka == kb) || a.ma_period() as u64 != la as u64 {
+						sink.push("MA/is_similar_to/wrong-verdict", format!("{ka}-{la} ~ {kb}-{lb}"), format!("is_similar_to = {same}, ma_period = {}", a.ma_period()));
+					}
+				}
+			}
 		}
 	}
 	for c0 in defaults() {
